@@ -293,6 +293,29 @@ func registerVFS(e *Engine) {
 	}
 	osf("(*os.File).Write", func(x *Exec, a []Value) Value { return wr(x, a, bytesOf(a[1])) })
 	osf("(*os.File).WriteString", func(x *Exec, a []Value) Value { return wr(x, a, x.pickAlt(a[1].(*StrVal)).Bytes()) })
+	// io.Copy(file, reader): the reader is drained by the real io.ReadAll; the text may contain
+	// opaque (formatted) parts, so only the fact that the file was written is recorded
+	osf("(*os.File).ReadFrom", func(x *Exec, a []Value) Value {
+		h := handle(x, a[0])
+		if iv, ok := a[1].(*IfaceVal); ok && iv.T == nil {
+			x.goPanicf("invalid memory address or nil pointer dereference (io.Copy from a nil reader)")
+		}
+		ra := x.eng.findFunc("io", "ReadAll")
+		if ra == nil {
+			panic(unsupported("io.ReadAll not found"))
+		}
+		res := x.callFunction(ra, []Value{a[1]}, nil).(TupleVal)
+		np, err := write(x, h.path, nil, false, false, h.append, h.pos)
+		h.pos = np
+		if iv := err.(*IfaceVal); iv.T != nil {
+			return TupleVal{mkBV(64, 0), err}
+		}
+		n := 0
+		if sl, ok := res[0].(*SliceVal); ok {
+			n = sl.Len
+		}
+		return TupleVal{mkBV(64, uint64(n)), res[1]}
+	})
 	osf("(*os.File).Close", func(x *Exec, a []Value) Value { return nilIface })
 	osf("(*os.File).Sync", func(x *Exec, a []Value) Value { return nilIface })
 	// the FileInfo value returned by the model is a real *os.fileStat: its accessors may be interpreted
